@@ -29,7 +29,7 @@ type c13Case struct {
 
 func genC13(t *rapid.T) c13Case {
 	var c c13Case
-	c.Stack.Kind = rapid.SampledFrom([]string{"queue", "queue", "deadline", "deadline", "blocking", "fifo-dep", "lifo-dep"}).Draw(t, "kind")
+	c.Stack.Kind = rapid.SampledFrom([]string{"queue", "queue", "deadline", "deadline", "blocking", "fifo-dep", "lifo-dep", "pool"}).Draw(t, "kind")
 	c.Stack.Limit = 1
 	c.Stack.Strategy = rapid.SampledFrom([]string{"simple", "precise"}).Draw(t, "strategy")
 	c.Stack.Backlog = 3
@@ -37,7 +37,10 @@ func genC13(t *rapid.T) c13Case {
 	c.ArriveNs = rapid.SampledFrom([]int64{0, 1, 5, 3_000_000, 40_000_000}).Draw(t, "arrive")
 	var bound int64 = -1 // relative to arrival
 	switch c.Stack.Kind {
-	case "queue", "fifo-dep", "lifo-dep":
+	case "queue", "fifo-dep", "lifo-dep", "pool":
+		if c.Stack.Kind == "pool" {
+			c.Stack.Ordering = rapid.SampledFrom([]string{"fifo", "lifo"}).Draw(t, "poolOrdering") // the generic pool over a queue limiter: its timeout argument is the backlog timeout
+		}
 		c.Stack.TimeoutNs = rapid.SampledFrom(durs).Draw(t, "timeout") // explicit values only: the default (0 => 1 s) is an implementation constant, not part of the property
 		if c.Stack.Kind == "queue" {
 			c.Stack.Ordering = rapid.SampledFrom([]string{"fifo", "lifo", ""}).Draw(t, "ordering")
@@ -58,7 +61,10 @@ func genC13(t *rapid.T) c13Case {
 		}
 		c.Stack.DeadlineNs = d
 		bound = d - c.ArriveNs
-		if rapid.IntRange(0, 5).Draw(t, "farDeadline") == 0 {
+		if rapid.IntRange(0, 9).Draw(t, "zeroDeadline") == 0 {
+			// the zero time.Time is an instant long past: every call comes after the deadline
+			c.Stack.DeadlineFar, bound = 4, -1
+		} else if rapid.IntRange(0, 5).Draw(t, "farDeadline") == 0 {
 			// "practically never": the caller is bounded by cancellation only
 			c.Stack.DeadlineFar, bound = rapid.IntRange(1, 3).Draw(t, "far"), -1
 		}
@@ -88,6 +94,9 @@ func genC13(t *rapid.T) c13Case {
 	}
 	c.Outcome = rapid.IntRange(0, 2).Draw(t, "outcome")
 	c.Free = rapid.IntRange(0, 5).Draw(t, "free") == 0
+	if c.Stack.DeadlineFar == 4 {
+		c.Free = true // nobody can be admitted first: the limiter has expired before the case starts
+	}
 	if !c.HasCancel && !c.Free && c.Stack.Kind != "blocking" && bound > 0 && rapid.Bool().Draw(t, "rival") {
 		c.Rival = true
 	}
@@ -197,6 +206,9 @@ func runC13InBubble(c c13Case) (out kit.Outcome) {
 	if c.Stack.DeadlineFar > 0 {
 		D = never
 	}
+	if c.Stack.DeadlineFar == 4 {
+		D = -1 // before every instant of the case
+	}
 	preCancelled := cancelAt <= A
 	bound := never
 	boundWhy := ""
@@ -207,7 +219,7 @@ func runC13InBubble(c c13Case) (out kit.Outcome) {
 	}
 	cancelApplies := kind == "blocking" || kind == "deadline" || (kind == "queue" && c.Stack.Evict)
 	switch kind {
-	case "queue", "fifo-dep", "lifo-dep":
+	case "queue", "fifo-dep", "lifo-dep", "pool":
 		if c.Stack.TimeoutNs >= 0 {
 			setBound(A+c.Stack.effTimeout(), "backlog timeout")
 		}
@@ -251,6 +263,8 @@ func runC13InBubble(c c13Case) (out kit.Outcome) {
 	case kind == "deadline" && A > D:
 		if !snap.Done || snap.OK || snap.RetAt != A {
 			mk("after-deadline", "call made after the deadline: must be refused at once")
+		} else if busyAtArrival >= 0 && busyAfter > busyAtArrival && !released {
+			mk("after-deadline-capacity", "refused call consumed capacity (busy %d -> %d)", busyAtArrival, busyAfter)
 		}
 	case kind == "deadline" && A == D && R <= A:
 		// exactly at the deadline with capacity free: either answer, but at once
